@@ -38,17 +38,23 @@ def main():
         res = {"replay": True, "deterministic": obs[0] == obs[1], "violated": bool(obs[0][1]), "observations": obs}
         json.dump(res, open(out, "w"), indent=1)
         return
-    res = explore.run_spaces(spaces, deadline_s)
-    # pin down crashes: re-run the block alone in slow mode
+    stall_s = 240 if tier == "quick" else 600
+    res = explore.run_spaces(spaces, deadline_s, stall_s=stall_s)
+    # pin down crashes: re-run the block alone in slow mode (the first few; the rest are reported as not isolated and make the
+    # pass non-exhaustive, they are never dropped)
     confirmed = []
-    for c in res["crashes"]:
+    for ci, c in enumerate(res["crashes"]):
+        if ci >= 3 and confirmed:
+            res["errors"].append("worker crash in space %s block %r (exit %r) not re-run in isolation: %d crashes already pinned down" % (
+                spaces[c["space_idx"]].name, spaces[c["space_idx"]].blocks[c["block_idx"]], c["exit"], len(confirmed)))
+            continue
         sp = spaces[c["space_idx"]]
         blk = sp.blocks[c["block_idx"]]
         one = explore.Space(sp.name, [blk], sp.cases, sp.one)
         save = explore.NWORK
         explore.NWORK = 1
         try:
-            r2 = explore.run_spaces([one], max(120.0, deadline_s), slow=True, stall_s=1200)
+            r2 = explore.run_spaces([one], max(120.0, deadline_s), slow=True, stall_s=2 * stall_s)
         finally:
             explore.NWORK = save
         if r2["crashes"]:
